@@ -196,7 +196,7 @@ func blameEncoding(t *cqlref.Type, f *gform, v cqlref.Val, proto int) (string, s
 
 // blameRoundTrip: innermost (type, src form, dst form) whose own round trip fails.
 func blameRoundTrip(t *cqlref.Type, sf, df *gform, v cqlref.Val, proto int) (string, string, string, string) {
-	if len(sf.sub) == len(df.sub) && len(sf.sub) > 0 && sf.kind != "mapset" {
+	if len(sf.sub) == len(df.sub) && len(sf.sub) > 0 {
 		var cts []*cqlref.Type
 		var cvs [][]cqlref.Val
 		switch t.ID {
